@@ -94,6 +94,12 @@ class Obs(aave.Observer):
 
     def compare(self, w, where):
         ctx, case = self.ctx, self.case
+        # the comparison itself reads every view (and so fills every cache). In 'sparse' cases it only runs at the steps the
+        # generated mask selects, so that writes also meet caches that nobody has looked at since the last reset
+        self.step = getattr(self, "step", -1) + 1
+        if case.get("sparse") and not case["mask"][self.step % len(case["mask"])]:
+            self.labels.add("compare.skipped")
+            return
         m = w.market
         r = Ref(w)
         T = w.tok
@@ -182,6 +188,19 @@ class Obs(aave.Observer):
             self.rww = True
 
 
+def st_views_case():
+    from hypothesis import strategies as st
+
+    @st.composite
+    def build(draw):
+        case = draw(st_case("views", max_bars=8, max_ops=6))
+        case["sparse"] = draw(st.booleans())
+        case["mask"] = draw(st.lists(st.sampled_from([True, False, False]), min_size=6, max_size=6))
+        return case
+
+    return build()
+
+
 def body(case, ctx: Ctx):
     obs = Obs(ctx, case)
     w = aave.World(case, obs)
@@ -196,7 +215,7 @@ def shards(tier, seed):
 
 def run_shard(spec):
     ctx = Ctx(PROPERTY, spec["sub"])
-    v = run_given(ctx, st_case("views", max_bars=8, max_ops=6), body, spec["n"], spec["seed"])
+    v = run_given(ctx, st_views_case(), body, spec["n"], spec["seed"])
     return ctx.result(v)
 
 
